@@ -22,8 +22,26 @@ META = {
     "technique": "Coq proof by invariant over all histories of the clean fragment + refutation witnesses for every drift class + "
                  "differential correspondence of the executable model (all seven counters, CountersDiff results, container info, forced "
                  "recount) with a real meta.DB after every operation + declarative recount evaluated on the dumped bucket content",
-    "level_text": "placeholder",
-    "level_note": "placeholder partial",
+    "level_text": "C02_typed_counters_exact_partial: for every finite history (puts of regular/tombstone/lock/link objects, garbage marks default "
+                  "and redundant, container inhume/delete, deletes, revivals, epoch changes) inside the clean fragment `clean_hist` of Meta/Spec.v, "
+                  "the five per-type counters (physical, root, tombstone, lock, link) of every container of the Gallina model of the metabase equal "
+                  "the number of such objects its metadata indexes (zero for a removed container), by an invariant proved for every operation "
+                  "(Meta/TypedProofs.v); the premise includes that the state fits 64-bit counters, so no counter has wrapped. The full-strength "
+                  "statement (all histories, including container info = number and payload of stored physical objects not marked for removal) is "
+                  "REFUTED for the faithful model by five witness histories (C02_counters_refuted_*), one per drift class, each class being a boolean "
+                  "predicate on the operation (Spec.unclean_op). The model (all seven raw counters, CountersDiff results of every operation, "
+                  "GetContainerInfo, the forced recount of syncContainerCounters) is tied to the Go code on every run by differential comparison after "
+                  "every operation, and the implementation's counters are compared with the declarative recount of the dumped bucket content.",
+    "level_note": "partial: (1) the exactness THEOREM covers the per-type counters on the clean fragment without PutBatch; exactness of the container "
+                  "info (objects number, storage size) on the clean fragment is checked on every run against the reference (0 mismatches inside the "
+                  "fragment, any mismatch there is reported as a violation) but is not proved in Coq; (2) outside the fragment the counters do drift "
+                  "in the real code (known findings c02-put-on-marked-id, c02-tombstone-target, c02-mark-unstored, c02-relations, "
+                  "c02-revive-multi-tombstone), the garbage counter has no consistent meaning there (number of garbage keys vs number of marked "
+                  "stored objects) and GetContainerInfo = phy - gc inherits that; (3) the reference treats a redundant mark as 'marked for removal' "
+                  "for size estimation (as MarkGarbage does) while syncContainerCounters still counts its payload (the recount itself deviates, "
+                  "modelled and tied as sync_counters); objects of a removed container count as zero. Shard.ContainerInfo (shard level) is not "
+                  "exercised. Modelled, not verified: bbolt as an ordered map, int64 conversion of sizes >= 2^63. Trusted: Coq kernel + vm_compute, "
+                  "hand-written model (tied), harness, driver; per-step 61-bit digest comparison (full comparison on mismatch).",
     "trusted_base": ["Coq 8.16.1 kernel, vm_compute", "model Meta/Model.v hand-written, tied by differential check (state incl. raw counters, results, views)",
                      "harness/cmd/meta, hooks zz_verif_meta.go, props/_meta.py, lib/vlib.py", "bbolt modelled as an ordered map"],
     "assumptions": ["object headers are a function of the object ID; parent relation acyclic", "payload sizes < 2^63 (int64 conversion not modelled)"],
